@@ -1,10 +1,11 @@
 """C18 — compaction filters act only where assigned, and only as their verdicts say."""
 from gen import Gen, NAMES
 from seqdiff import run_seq
-from seqprop import coverage, replay_file, corpus
+from seqprop import coverage, replay_file, corpus, audit
 
 LEVEL = "translation_validation"
-COQ_TARGETS = ()
+COQ_TARGETS = ("props/C18.vo",)
+THEOREMS = ['C18_filter_verdicts_partial', 'C18_assignment_on_create_partial']
 RULE = ("2-3 keyspaces of which one or two have a filter assigned by name (keep / remove / replace decided from the first key "
         "byte), random programs with rotate/step/drain/major and reopen; results compared between implementation, model and "
         "oracle (the model applies the verdicts in its compaction stream: kept keys exact, removed/replaced keys in original "
@@ -47,6 +48,7 @@ def programs(seed, n, nops):
 
 def run(rep, tier, seed, build):
     n, nops = (240, 45) if tier == "quick" else (5000, 90)
+    audit(rep, "props/C18.v", THEOREMS, build)
     progs = corpus("C18") + programs(seed, n, nops)
     res = run_seq(rep, progs)
     coverage(rep, res, progs, RULE)
